@@ -331,7 +331,16 @@ var (
 	cliMu    sync.Mutex
 	cliCache = map[string][]byte{}
 	cliSeq   int
+	// sources on which the binary could not be started or ran into the time-out: says nothing about gosk
+	cliUndecided = map[string]bool{}
 )
+
+// FreshProcessUndecided: the fresh-process run of src did not finish (start failure, time-out on a busy machine).
+func FreshProcessUndecided(src string) bool {
+	cliMu.Lock()
+	defer cliMu.Unlock()
+	return cliUndecided[src]
+}
 
 // FreshProcessBytes assembles src in a fresh process and returns the output
 // file's bytes (cached per source text). ok=false when the process failed.
@@ -350,6 +359,11 @@ func FreshProcessBytes(src string) ([]byte, bool) {
 	defer os.Remove(in)
 	defer os.Remove(out)
 	r := RunCLI(TmpDir(), in, out)
+	if r.Err != nil {
+		cliMu.Lock()
+		cliUndecided[src] = true
+		cliMu.Unlock()
+	}
 	var b []byte
 	if r.Err == nil && r.Exit == 0 {
 		b, _ = os.ReadFile(out)
